@@ -478,11 +478,11 @@ impl Runner for R {
 mod e {
     use super::*;
     use radix_engine::transaction::*;
-    use radix_engine::updates::*;
     use radix_transactions::prelude::*;
     use scrypto_test::prelude::{LedgerSimulator, LedgerSimulatorBuilder, LedgerSimulatorSnapshot, NoExtension};
     use radix_substate_store_impls::memory_db::InMemorySubstateDatabase;
-    use radix_engine::blueprints::resource::{BurnFungibleResourceEvent, DepositEvent, PayFeeEvent};
+    use radix_engine::blueprints::resource::fungible_vault::{DepositEvent, PayFeeEvent};
+    use radix_engine::blueprints::resource::BurnFungibleResourceEvent;
 
     pub struct E;
     type Sim = LedgerSimulator<NoExtension, InMemorySubstateDatabase>;
@@ -600,8 +600,8 @@ mod e {
                 Ok(r) => r,
                 Err(p) => return Answer::fail("panic", "c06e-executor-panic", format!("pass 1 panicked: {}", p)),
             };
-            if !r1.is_commit() {
-                return Answer::fail("probe-not-committed", "c06e-probe-rejected", format!("a generously funded transaction was not committed: {:?}", r1.expect_rejection()));
+            if r1.is_rejection() || matches!(r1.result, TransactionResult::Abort(_)) {
+                return Answer::fail("probe-not-committed", "c06e-probe-rejected", "a generously funded transaction was not committed".to_string());
             }
             let total1 = r1.fee_summary.total_cost();
             let snap = w.snap.clone();
